@@ -22,7 +22,8 @@ package main
 //        q:<k>                      end of stream k; res = .
 //        c:<sess>                   CloseSession(sess) on the real Libp2pCommunication (an outbound stream of the session
 //                                   is registered first so that there is something to release); res = .
-//      retained entries: <sess>:<type>:<key>:<chan>, sorted, from the real subscribersMap after the last op.
+//      retained entries: <sess>:<type>:<chan> for every channel still stored anywhere in the manager after the last op
+//      (found by reflection; session / type are those the channel was subscribed under), sorted.
 
 import (
 	"bytes"
@@ -435,16 +436,55 @@ func c12Run(spec string) string {
 			panic("bad op " + op)
 		}
 	}
+	// what the manager still RETAINS: every channel reachable from the manager value, found by walking it with
+	// reflection (no field name, no assumption on how the maps are nested); each is reported with the session and
+	// type it was subscribed under
 	ret := []string{}
-	for _, e := range c.VerifDump() {
-		n, ok := chanNo[e.Ch]
-		if !ok {
-			n = 999999
+	byPtr := map[uintptr]subRec{}
+	for _, r := range subs {
+		byPtr[reflect.ValueOf(r.ch).Pointer()] = r
+	}
+	for _, ptr := range c12Channels(reflect.ValueOf(c.SessionSubscriptionManager), 0) {
+		if r, ok := byPtr[ptr]; ok {
+			ret = append(ret, hx([]byte(r.sess))+":"+itoa(r.typ)+":"+itoa(chanNo[r.ch]))
+		} else {
+			ret = append(ret, "-:0:999999")
 		}
-		ret = append(ret, hx([]byte(e.Session))+":"+itoa(int(e.Type))+":"+hx([]byte(e.Key))+":"+itoa(n))
 	}
 	sort.Strings(ret)
 	return joinOr(res, ";") + "|" + joinOr(ret, ";")
+}
+
+// c12Channels: the addresses of all message channels stored anywhere inside v (maps, slices, structs, pointers).
+func c12Channels(v reflect.Value, depth int) []uintptr {
+	out := []uintptr{}
+	if depth > 12 || !v.IsValid() {
+		return out
+	}
+	switch v.Kind() {
+	case reflect.Chan:
+		if !v.IsNil() && v.Type().Elem() == reflect.TypeOf((*comm.WrappedMessage)(nil)) {
+			out = append(out, v.Pointer())
+		}
+	case reflect.Map:
+		it := v.MapRange()
+		for it.Next() {
+			out = append(out, c12Channels(it.Value(), depth+1)...)
+		}
+	case reflect.Slice, reflect.Array:
+		for i := 0; i < v.Len(); i++ {
+			out = append(out, c12Channels(v.Index(i), depth+1)...)
+		}
+	case reflect.Struct:
+		for i := 0; i < v.NumField(); i++ {
+			out = append(out, c12Channels(v.Field(i), depth+1)...)
+		}
+	case reflect.Ptr, reflect.Interface:
+		if !v.IsNil() {
+			out = append(out, c12Channels(v.Elem(), depth+1)...)
+		}
+	}
+	return out
 }
 
 func intsJoin(xs []int) string {
@@ -568,6 +608,23 @@ func genC12(g *G) {
 	closeOp := "c:" + hs("1-2-100-104-0")
 	_ = closeOp
 	inter(nil, 0, 0, g.Count(6, 7), 1)
+	// the same interleavings on pairs of DIFFERENT (session, type) buckets whose texts run into each other when written
+	// without a separator or with the same separator: X1 / 1t against X11 / t, X / 1t against X1 / t, X- / t against X / -t …
+	saved := bk
+	for _, base := range []string{"1-2-100-104-", "k"} {
+		for t := 10; t <= 13; t++ {
+			for _, pair := range [][2]string{
+				{hs(base+"1") + ":" + itoa(t), hs(base+"11") + ":" + itoa(t-10)},
+				{hs(base) + ":" + itoa(t), hs(base+"1") + ":" + itoa(t-10)},
+				{hs(base+"1-") + ":" + itoa(t-10), hs(base+"1") + ":" + itoa(t-10)},
+				{hs(base+itoa(t)) + ":" + itoa(t-10), hs(base) + ":" + itoa(t)},
+			} {
+				bk = []string{pair[0], pair[1]}
+				inter(nil, 0, 0, g.Count(3, 4), 2)
+			}
+		}
+	}
+	bk = saved
 	inter(nil, 0, 0, g.Count(5, 6), 2)
 	// --- one OPEN inbound stream (and two) while subscriptions change between its messages: every order of subscribe /
 	// cancel / message-on-the-stream up to the given length
